@@ -66,6 +66,9 @@ LEVEL_NOTE = ('Trusted: mc/env_fs.py (LoggedFS op log; its replay model is verif
               '(file status, last completed save) class of first-stop states and uses representative offsets '
               '(JSON token boundaries to depth 2) for both stops.')
 RULE = ('cases = histories (container, n1<=n2, save_frequency, spec2 in {same,+rate,+size}) x stop family x shard; '
+        'plus "grow" cases (two sizes x two rates grown by a rate / a size that precedes existing simulations in '
+        'expansion order), "pause" cases (KeyboardInterrupt inside every trial - before generate and before decode '
+        '- and at every trial boundary, then run() again on the same object), '
         'plus "resume" cases (run 1 complete, KeyboardInterrupt before/after every open of the results file and '
         'at the first trial boundary of run 2, run 3 to the same target); '
         'within a case every stop point of the family is executed (thorough: every byte offset; quick: offsets '
@@ -130,6 +133,12 @@ def spec_params(variant):
         'same': ([[2, 2]], [0.1, 0.2], 'MatchingDecoder', DEPOL),
         'rate': ([[2, 2]], [0.1, 0.2, 0.3], 'MatchingDecoder', DEPOL),
         'size': ([[2, 2], [2, 3]], [0.1, 0.2], 'MatchingDecoder', DEPOL),
+        # two sizes x two rates, grown so that the NEW simulations come BEFORE existing ones in the expanded
+        # (size-major) order: an appended rate lands between the sizes, a size can be put first in its list
+        'base2': ([[2, 2], [2, 3]], [0.1, 0.2], 'MatchingDecoder', DEPOL),
+        'base2+rate': ([[2, 2], [2, 3]], [0.1, 0.2, 0.3], 'MatchingDecoder', DEPOL),
+        'base2+size-first': ([[3, 2], [2, 2], [2, 3]], [0.1, 0.2], 'MatchingDecoder', DEPOL),
+        'base2+rate-first': ([[2, 2], [2, 3]], [0.05, 0.1, 0.2], 'MatchingDecoder', DEPOL),
         # specifications used to plant foreign result files
         'f-rate': ([[2, 2]], [0.15, 0.25], 'MatchingDecoder', DEPOL),
         'f-size': ([[3, 3]], [0.1, 0.2], 'MatchingDecoder', DEPOL),
@@ -293,9 +302,14 @@ class _NoPatch:
         return False
 
 
-def execute(root, container, variant, n, f, serial, inject=None, trace_disk=False, observe=True):
+def execute(root, container, variant, n, f, serial, inject=None, trace_disk=False, observe=True,
+            intrial=False, again=None):
     """One `panqec run`-equivalent execution in sandbox `root` (its files are the starting state).
-    observe=False: the file system is not instrumented (a final restart only needs the trial counter)."""
+    observe=False: the file system is not instrumented (a final restart only needs the trial counter).
+    intrial=True: interceptable points also INSIDE a trial (before the error model's generate and before the
+    decoder's decode of every simulation).
+    again=m: if the injected interrupt was swallowed by run() ("Simulation paused"), run(m) is called once more
+    on the SAME BatchSimulation object; rec['phase_a'] then describes the paused run, rec the continuation."""
     from panqec.simulation import read_input_dict
     fs = E.LoggedFS(root, trace_disk=trace_disk)
     fs.inject = inject
@@ -314,8 +328,14 @@ def execute(root, container, variant, n, f, serial, inject=None, trace_disk=Fals
             try:
                 batch = read_input_dict(copy.deepcopy(spec_of(variant)), output_file=out, save_frequency=f)
                 for sim in batch:
-                    _wrap(sim, fs, rec)
+                    _wrap(sim, fs, rec, intrial)
                 batch.run(n)
+                if again is not None and fs.fired is not None:
+                    rec['phase_a'] = {'executed': dict(rec['executed']), 'log_len': len(fs.log),
+                                      'mem': {ident_of_sim(x): norm_results(x.results) for x in batch}}
+                    for k in rec['executed']:
+                        rec['executed'][k] = 0
+                    batch.run(again)
             except E.HardStop:
                 rec['hard'] = True
             except E.FSModelError:
@@ -334,16 +354,33 @@ def execute(root, container, variant, n, f, serial, inject=None, trace_disk=Fals
     batch = None
     sim = None
     E.settle()                       # leaked writers flush and close now, before the disk is read
-    if sum(rec['executed'].values()) != box[0] - serial:
-        raise RuntimeError('trial accounting: %d run() trials but %d generator draws'
-                           % (sum(rec['executed'].values()), box[0] - serial))
+    done = sum(rec['executed'].values()) + sum(rec.get('phase_a', {}).get('executed', {}).values())
+    aborted = (box[0] - serial) - done        # a trial interrupted inside has drawn its generator already
+    if aborted != 0 and not (aborted == 1 and intrial and fs.fired is not None):
+        raise RuntimeError('trial accounting: %d run() trials but %d generator draws' % (done, box[0] - serial))
     rec['log'] = fs.log
     rec['fired'] = fs.fired
     rec['disk_trace'] = fs.disk_trace
     return rec
 
 
-def _wrap(sim, fs, rec):
+def _mark_before(obj, name, fs, label):
+    """obj.name(...) becomes an interceptable point (instance attribute; objects may be shared: wrap once)."""
+    if getattr(obj, '_c12_marked_' + name, None) is fs:
+        return
+    orig = getattr(obj, name)
+
+    def marked(*a, **kw):
+        fs.mark(label)
+        return orig(*a, **kw)
+    setattr(obj, name, marked)
+    setattr(obj, '_c12_marked_' + name, fs)
+
+
+def _wrap(sim, fs, rec, intrial=False):
+    if intrial:
+        _mark_before(sim.error_model, 'generate', fs, 'in-trial:generate')
+        _mark_before(sim.decoder, 'decode', fs, 'in-trial:decode')
     ident = ident_of_sim(sim)
     if ident in rec['executed']:
         raise RuntimeError('two simulations with identity %s' % ident)
@@ -524,7 +561,7 @@ def stops_of_run(sb, container, variant, n, f, start, families, tier_offsets, se
     live = []
     if 'between' in families:
         for ev in log:
-            if ev['k'] == 'mark':
+            if ev['k'] == 'mark' and not ev['p'].startswith('in-trial'):
                 live.append(('between-trials', E.Injection(ev['n'], 'before', 0, E.HardStop), ev['p']))
     if 'interrupt' in families:
         mode = tier_offsets['interrupt'][container]
@@ -618,7 +655,9 @@ def restart_and_judge(sb, container, variant2, n2, f, state, serial):
     return viol, '%s|a=%s' % (ok_digest, adopted), rec, image
 
 
-def judge(container, variant2, n2, b0, lineage, rec, final_bytes):
+def judge(container, variant2, n2, b0, lineage, rec, final_bytes, final_state=None):
+    """final_state: {ident: normalised results} to judge instead of the file (used when a continuation on the
+    same object had nothing left to execute and therefore wrote nothing)."""
     V = []
     want = idents_of(variant2)
     if rec['raised'] is not None:
@@ -627,14 +666,14 @@ def judge(container, variant2, n2, b0, lineage, rec, final_bytes):
         raise RuntimeError('spec expansion differs from the reference (C13 matter): %s vs %s'
                            % (rec['idents'], want))
     try:
-        recs = ref_load(final_bytes, container) if final_bytes is not None else None
+        recs = ref_load(final_bytes, container) if final_bytes is not None and final_state is None else None
     except Exception as exc:
         return [('final-unreadable', type(exc).__name__,
                  {'message': 'results file unreadable after a restart that returned normally'})]
-    if recs is None:
+    if recs is None and final_state is None:
         return [('length-mismatch', None, {'message': 'no results file after the restart'})]
-    final = {}
-    for r in recs:
+    final = dict(final_state or {})
+    for r in recs or []:
         ident = ident_of_record(r)
         if ident in final:
             V.append(('duplicated', None, {'sim': ident, 'message': 'two records for one simulation'}))
@@ -749,6 +788,10 @@ def cases(tier, seed):
         for container in b['containers']:
             out.append({'family': 'resume', 'container': container, 'save_frequency': f,
                         'n_pairs': b['n_pairs'], 'spec2': b['spec2'], 'tier': tier})
+            out.append({'family': 'grow', 'container': container, 'save_frequency': f,
+                        'n_pairs': b['n_pairs'], 'tier': tier})
+            out.append({'family': 'pause', 'container': container, 'save_frequency': f,
+                        'n_pairs': b['n_pairs'], 'tier': tier})
     fams = ['between', 'kill', 'interrupt'] + (['depth2'] if b['depth'] >= 2 else [])
     for fam in fams:
         for (n1, n2) in b['n_pairs']:
@@ -779,6 +822,10 @@ def eval_case(case):
             return _eval_depth2(case, sb)
         if case['family'] == 'resume':
             return _eval_resume(case, sb)
+        if case['family'] == 'grow':
+            return _eval_grow(case, sb)
+        if case['family'] == 'pause':
+            return _eval_pause(case, sb)
         return _eval_depth1(case, sb)
     finally:
         sb.close()
@@ -969,6 +1016,98 @@ def _eval_resume(case, sb):
                     break
                 st2['start'] = '%d-%d-%s' % (n1, n2, spec2)
                 _judge_stop(acc, sb, sub, st2, spec2, n2, f, serial=200000, depth=2, chain=chain)
+    return acc.finish()
+
+
+GROWN = ('base2+rate', 'base2+size-first', 'base2+rate-first')
+
+
+def _eval_grow(case, sb):
+    """run 1 on two sizes x two rates (complete, and stopped at every trial boundary for the first n-pair);
+    the restart uses a specification grown so that new simulations precede existing ones in expansion order."""
+    acc = _Acc(case)
+    container, f = case['container'], case['save_frequency']
+    out_rel = out_name(container)
+    for pair_no, (n1, n2) in enumerate(case['n_pairs']):
+        d = sb.fresh({})
+        rec1 = execute(d, container, 'base2', n1, f, serial=0)
+        image1 = E.read_image(d)
+        sb.drop(d)
+        if rec1['raised'] is not None:
+            acc.add('first-run-raises', 'none', rec1['raised'][0], f, {'message': rec1['raised'][1]})
+            continue
+        saves = E.completed_saves(rec1['log'], out_rel)
+        cum = Cum()
+        for _i, data in saves:
+            cum = extend_cum(cum, data, container)
+        states = [{'stop': 'between-trials', 'where': {'run1': 'base2 completed %d trials' % n1},
+                   'image': image1, 'b0': latest_save(saves, len(rec1['log']) + 1, None), 'cum': cum,
+                   'lineage': merge_lineage({}, rec1['mem'])}]
+        if pair_no == 0:
+            states += list(stops_of_run(sb, container, 'base2', n1, f, ({}, None, {}), {'between'},
+                                        TIER_OFFSETS['quick'], serial=0))
+        sub = dict(case, n1=n1)
+        for st in states:
+            st['start'] = 'base2-%d' % n1
+            for spec2 in GROWN:
+                _judge_stop(acc, sb, sub, st, spec2, n2, f, serial=100000, depth=1)
+    return acc.finish()
+
+
+def _eval_pause(case, sb):
+    """KeyboardInterrupt INSIDE a trial (before generate / before decode of every trial of the first run) and
+    at every trial boundary; panqec's run() swallows it ("Simulation paused"); then run(n2) is called again on
+    the same BatchSimulation object - the continuation is judged like a restart: what completed saves held must
+    be kept, what it adopts without executing must be what the paused run really held in memory."""
+    acc = _Acc(case)
+    container, f = case['container'], case['save_frequency']
+    out_rel = out_name(container)
+    for (n1, n2) in case['n_pairs']:
+        d = sb.fresh({})
+        probe = execute(d, container, 'base', n1, f, serial=0, intrial=True)
+        sb.drop(d)
+        if probe['raised'] is not None:
+            acc.add('first-run-raises', 'none', probe['raised'][0], f, {'message': probe['raised'][1]})
+            continue
+        for ev in probe['log']:
+            if ev['k'] != 'mark':
+                continue
+            inj = E.Injection(ev['n'], 'before', 0, KeyboardInterrupt)
+            d = sb.fresh({})
+            rec = execute(d, container, 'base', n1, f, serial=0, inject=inj, intrial=True, again=n2)
+            image = E.read_image(d)
+            sb.drop(d)
+            acc.res['evals'] += 1
+            acc.res['extra']['stop_points'] += 1
+            a_phase = rec.get('phase_a')
+            if a_phase is None:           # the interrupt escaped run() or was not swallowed: nothing to continue
+                acc.outcomes.add('pause|%s|not-continued' % ev['p'])
+                continue
+            cum = Cum()
+            for _i, data in E.completed_saves(rec['log'][:a_phase['log_len']], out_rel):
+                cum = extend_cum(cum, data, container)
+            wrote = E.completed_saves(rec['log'][a_phase['log_len']:], out_rel)
+            final_state = None
+            if not wrote and sum(rec['executed'].values()) == 0:
+                # nothing was left to execute, so nothing was written: the property (which speaks about running
+                # the specification again) does not say that a continuation must flush what the paused run
+                # held in memory; judge the state the object holds instead of the file
+                final_state = rec['mem']
+                acc.res['extra']['pause_continuation_wrote_nothing'] = \
+                    acc.res['extra'].get('pause_continuation_wrote_nothing', 0) + 1
+            viol = judge(container, 'same', n2, cum, merge_lineage({}, a_phase['mem']), rec, image.get(out_rel),
+                         final_state=final_state)
+            acc.states.add((n1, n2, ev['n']))
+            acc.outcomes.add('pause|%s|%s' % (ev['p'], 'ok' if not viol else '+'.join(sorted({v[0] for v in viol}))))
+            where = dict(inj.as_dict(), event=ev['p'], then='run(%d) again on the same object' % n2)
+            if not acc.res['samples']:
+                acc.res['samples'] = [{'family': 'pause', 'container': container, 'save_frequency': f,
+                                       'history': {'run1': ['base', n1], 'continued_to': n2},
+                                       'stopped_at': where, 'verdict': 'ok' if not viol else viol[0][0]}]
+            for kind, exc, detail in viol:
+                acc.add(kind, 'interrupt', exc, f, dict(detail, history={'n1': n1, 'n2': n2, 'spec2': 'same',
+                                                                           'same_object': True},
+                                                         stopped_at=where))
     return acc.finish()
 
 
